@@ -68,4 +68,33 @@ structure Flags where
   capture : Bool
   deriving DecidableEq, Repr
 
+/-- shape of the expression that yields a container handed to a new object (`Logger(...)`, `context.set(...)`,
+`log_record["extra"]`): a display `{**a, **b}` / `[*a, b]` / `a + [b]` always builds a NEW object, a bare
+name is the very object it names, a conditional expression is one or the other (tie G regenerates the shape
+of each construction site; the object-level model `Context/Heap.lean` evaluates it) -/
+inductive DExpr (S : Type) where
+  | display (ops : List S)
+  | alias (o : S)
+  | ite (t e : DExpr S)
+  deriving DecidableEq, Repr
+
+/-- does every evaluation of the expression build a new object? -/
+def DExpr.aliasFree {S : Type} : DExpr S → Bool
+  | .display _ => true
+  | .alias _ => false
+  | .ite t e => t.aliasFree && e.aliasFree
+
+/-- how `Logger._log` decides whether to call the configured patcher: `if core.patcher:` (truth value of the
+callable) or `if core.patcher is not None:` -/
+inductive PatcherGuard where
+  | truthy | isNotNone
+  deriving DecidableEq, Repr
+
+/-- the three statements of `Logger._log` that touch `kwargs` between the record display and the patchers -/
+inductive KwStage where
+  | lazyEval      -- `kwargs = {key: value() for key, value in kwargs.items()}` under `if lazy:`
+  | capture       -- `log_record["extra"].update(kwargs)` under `if capture and kwargs:`
+  | recordInject  -- `kwargs.update(record=log_record)` under `if record:`
+  deriving DecidableEq, Repr
+
 end Context
